@@ -11,6 +11,8 @@ PROP = "C07"
 EDGE_KINDS = ["req", "opt", "nullable", "tuple", "array", "vec", "map"]
 BY_VALUE = {"req", "opt", "nullable", "tuple", "array"}
 NODE_KINDS = ["struct", "alias", "enum"]
+# "flat": anyOf of overlapping object schemas, generated as a struct of flattened Option<branch> members (by value)
+NODE_KINDS_X = NODE_KINDS + ["flat"]
 
 
 def ref(j):
@@ -47,6 +49,18 @@ def build_doc(n, node_kinds, edges, order=None):
             defs["N%d" % i] = edge_schema(k2, j)
             if k2 in BY_VALUE:
                 eff.append((i, j))
+            continue
+        if kind == "flat" and out:
+            branches = [{"type": "object", "properties": {"own%d" % i: {"type": "integer"}}}]
+            for e, (j, k) in enumerate(out):
+                if k in ("req", "opt"):
+                    branches.append(ref(j))
+                    eff.append((i, j))
+                else:
+                    branches.append({"type": "object", "properties": {"q%d" % e: edge_schema(k, j)}})
+                    if k in BY_VALUE:
+                        eff.append((i, j))
+            defs["N%d" % i] = {"anyOf": branches}
             continue
         if kind == "enum":
             branches = [{"type": "string", "enum": ["Unit"]}]
@@ -170,6 +184,17 @@ def enumerate_graphs(tier, seed):
             if len(edges) < 2:
                 continue
             full3.append(("n3", 3, list(nks), edges, None))
+    # flattened-anyOf nodes: n=1 self loops over every edge kind, n=2 with a second node of every kind
+    flat = []
+    for k in EDGE_KINDS:
+        flat.append(("f1", 1, ["flat"], [(0, 0, k)], None))
+    for nk in NODE_KINDS_X:
+        for k1 in EDGE_KINDS:
+            for k2 in EDGE_KINDS:
+                flat.append(("f2", 2, ["flat", nk], [(0, 1, k1), (1, 0, k2)], None))
+                flat.append(("f2", 2, ["flat", nk], [(0, 1, k1), (0, 0, k2)], None))
+                flat.append(("f2", 2, [nk, "flat"], [(0, 1, k1), (1, 0, k2)], [1, 0]))
+    out += flat
     if tier == "thorough":
         out += full2 + full3
         exhaustive = True
@@ -181,7 +206,7 @@ def enumerate_graphs(tier, seed):
     for i in range(nrand):
         rr = util.rng(seed, PROP, "rand", i)
         n = rr.randrange(2, 9)
-        nks = [rr.choice(NODE_KINDS) for _ in range(n)]
+        nks = [rr.choice(NODE_KINDS_X if i % 2 else NODE_KINDS) for _ in range(n)]
         m = rr.randrange(n, 2 * n + 2)
         edges = [(rr.randrange(n), rr.randrange(n), rr.choice(EDGE_KINDS)) for _ in range(m)]
         if i % 3 == 0:
@@ -259,7 +284,10 @@ def run(tier, seed, replay=None):
         if m["cyclic"]:
             rep.count("schema_cyclic")
             rep.nontrivial.add((m["n"], tuple(m["kinds"] or []), tuple(m["edges"] or [])))
-            compile_ids.append(cid)
+            if m["kinds"] and flatten_only_cycle(m["n"], m["kinds"], m["edges"]):
+                rep.count("flatten_only_cycle_not_in_compile_sample")   # KF-C07-1, observed on the pinned input below
+            else:
+                compile_ids.append(cid)
         else:
             rep.count("schema_acyclic_no_box")
         if len(rep.samples) < 4 and m["cyclic"]:
@@ -314,11 +342,44 @@ def run(tier, seed, replay=None):
                               {"input": p["input"], "out": o, "graph": meta[p["case"]]["edges"]},
                               case={"id": p["case"], "settings": {}, "history": [{"op": "root", "schema": meta[p["case"]]["doc"]}]})
         rep.notes["compiled_sample"] = {"graphs": len(sample), "removed": len(run2.s2.removed)}
+    known_flatten(rep)
     rep.notes["hook_box_events"] = hooks_box
     if hooks_box == 0:
         rep.inconclusive.append("cycle-breaking hook never fired")
-    findings = util.Findings(PROP, {})
+    findings = util.Findings(PROP, common.PREDS)
     return rep.finish(findings, min_nontrivial=200)
+
+
+def flatten_only_cycle(n, kinds, edges):
+    """A cycle made of flattened members only (flat node -> direct reference)."""
+    eff = [(a, b) for (a, b, k) in edges if kinds[a] == "flat" and k in ("req", "opt")]
+    return has_cycle(n, eff)
+
+
+def known_flatten(rep):
+    """Pinned input of KF-C07-1: a type that is recursive through flattened members only. The module type-checks, but
+    serde's FlatMapSerializer nests once per level, so `Serialize` cannot be instantiated for any concrete serializer
+    (rustc E0275). Compiled on its own because the error carries no span."""
+    import os
+    from vlib import stage2
+    path = os.path.join(util.VERIF, "corpus", PROP, "flatten_self.json")
+    doc = json.load(open(path))
+    case = {"id": "k_flatten_self", "settings": {}, "history": [{"op": "root", "schema": doc}], "opts": {"has_impl": False}}
+    run3 = pipeline.Run(PROP, "kf")
+    res = run3.vgen([case])
+    if vgen.ingest_status(res["k_flatten_self"]) != "ok":
+        rep.count("kf_flatten_rejected")
+        return
+    try:
+        run3.compile(want_builder=False, want_str=False, want_default=False)
+    except stage2.Stage2Error as e:
+        msg = str(e)
+        if "E0275" in msg and "FlatMapSerialize" in msg:
+            rep.violation("recursive_flatten_not_serializable", "E0275", {"msg": msg[:400]}, case=case)
+        else:
+            rep.inconclusive.append("pinned flatten_self input: unexpected build failure: " + msg[:200])
+        return
+    rep.count("kf_flatten_compiles")
 
 
 def depth(v):
